@@ -279,6 +279,39 @@ impl Prop for C06 {
     }
 }
 
+/// Enumerated short scripts, 16384 per world. Worlds 0..4: every script of length 0, 1 and 2. Then for
+/// each of the 17 witness-version opcodes (OP_0, OP_1..OP_16) four worlds with every 2-byte program
+/// `<ver> 02 xx yy` (quick: OP_1 only — the only version with a standard 2-byte program, pay-to-anchor).
+fn enum_short_world(w: u64) -> Vec<Vec<u8>> {
+    const PER: u64 = 16384;
+    let mut out = Vec::with_capacity(PER as usize);
+    if w < 5 {
+        for k in w * PER..((w + 1) * PER).min(65793) {
+            out.push(match k {
+                0 => vec![],
+                1..=256 => vec![(k - 1) as u8],
+                _ => vec![((k - 257) >> 8) as u8, (k - 257) as u8],
+            });
+        }
+        return out;
+    }
+    let w = w - 5;
+    // order of versions: OP_1 first
+    let vers: [u8; 17] = [0x51, 0x00, 0x52, 0x53, 0x54, 0x55, 0x56, 0x57, 0x58, 0x59, 0x5a, 0x5b, 0x5c, 0x5d, 0x5e, 0x5f, 0x60];
+    let ver = vers[(w / 4) as usize];
+    for k in (w % 4) * PER..(w % 4 + 1) * PER {
+        out.push(vec![ver, 2, (k >> 8) as u8, k as u8]);
+    }
+    out
+}
+fn enum_short_worlds(tier: Tier) -> u64 {
+    if tier == Tier::Quick {
+        5 + 4
+    } else {
+        5 + 4 * 17
+    }
+}
+
 impl Prop for C05 {
     fn id(&self) -> &'static str {
         "C05"
@@ -287,17 +320,25 @@ impl Prop for C05 {
         "per scenario 300..3000 output scripts on bitcoin or testnet3: every canonical template with random payloads (P2PK 33/65, P2PKH, P2SH, P2WPKH, P2WSH, P2TR, m-of-n multisig, OP_RETURN), one-byte substitution/deletion/truncation/extension of instances, all 256 leading opcodes with random tails, witness versions 0..16 x program lengths 1..42, multisig grid 0<=m,n<=16 with n, n+-1 keys, random token sequences, random bytes up to 10 KB. Oracle: (1) reference type (aggregate counts + first occurrences from simplestats) and address (per row from csvdump, own Base58Check/Bech32/Bech32m encoders) where the reference is certain; (2) every reported address, for any script, has the network prefix, a valid checksum under the reference decoder and decodes to the hash/program at the template position; (3) address-less classes report no address. Abstentions (statement silent) are counted. Non-trivial = all runs exit 0 and >=1 address reported; distinct by scenario hash.".into()
     }
     fn items(&self, tier: Tier) -> u64 {
-        if tier == Tier::Quick {
-            240
-        } else {
-            6000
-        }
+        enum_short_worlds(tier) + if tier == Tier::Quick { 240 } else { 6000 }
+    }
+    fn exhaustive_note(&self) -> Option<String> {
+        Some("every script of length 0..2 and every 2-byte witness program of version 1 (thorough: of all 17 versions) is enumerated completely on alternating networks; everything else is sampled".into())
     }
     fn required_probes(&self, _tier: Tier) -> Vec<&'static str> {
         vec!["ref_type_P2PKH", "ref_type_P2PK", "ref_type_P2SH", "ref_type_P2WPKH", "ref_type_P2WSH", "ref_type_P2TR", "ref_type_WitnessProgram", "ref_type_MultiSig", "ref_type_OpReturn", "ref_type_Unspendable", "ref_type_NotRecognised"]
     }
-    fn explore(&self, item: u64, rng: &mut Rng, _tier: Tier, h: &mut Harness) -> Result<(), String> {
+    fn explore(&self, item: u64, rng: &mut Rng, tier: Tier, h: &mut Harness) -> Result<(), String> {
         let coin = COINS[(item % 2) as usize];
+        if item < enum_short_worlds(tier) {
+            // seed parity swaps the network a world is built for
+            let coin = COINS[((item + h.seed) % 2) as usize];
+            let mut scn = script_world("C05", coin, enum_short_world(item), rng);
+            scn.family = "enum-short".into();
+            h.stats.probe("enumerated_short_scripts_world");
+            h.check(&mut scn)?;
+            return Ok(());
+        }
         let n = rng.usize(300, 3000);
         let scripts = bitcoin_scripts(rng, n);
         let mut scn = script_world("C05", coin, scripts, rng);
